@@ -153,6 +153,12 @@ def run_shard(spec):
                 acc.count("standin_selfcheck_failed(inconclusive)")
                 acc.observations.append("stand-in self-check: %s" % o2[1])
                 continue
+            inner2 = (rec2 or {}).get("inner", [])
+            if len(inner2) >= 2 and inner2[-1].get("value") is None and inner2[0].get("value") is not None:
+                # the (stand-in's) solver failed on a dimension-reduction problem after a successful first solve: PEP.solve then
+                # dies (an assertion / attribute error, DESIGN 8.4) - a solver-side failure, nothing the two back-ends disagree on
+                acc.count("mosek_side_heuristic_solver_failed(not judged)")
+                continue
             if o1[0] == "ok":
                 V("mosek_backend_raises:" + name, "wrapper='mosek' raised %s (%s) where wrapper='cvxpy' returned %r"
                   % (name, str(o2[1])[:160], o1[1]))
